@@ -165,6 +165,6 @@ impl Stage {
 			return Err(Failure::panic("", p));
 		}
 		let r = result.lock().unwrap().take().ok_or_else(|| Failure::simple("setup", format!("the agent for {phase:?} did not run")))?;
-		Ok((r, Callback { out, guard }))
+		Ok((r, Callback { out, guard, scrubbed: 0 }))
 	}
 }
